@@ -47,7 +47,6 @@ import (
 	"net/http/httptest"
 	"os"
 	"reflect"
-	"runtime"
 	"sort"
 	"strings"
 	"sync"
@@ -489,7 +488,17 @@ func (p *vfC17MPoller) due() bool {
 // good. A completion signal in the negative, not a timing verdict. Goroutines of brokers of earlier
 // cases can only make the count larger (no proof). "" = no proof.
 func (r *vfC17MRig) orphanProof() string {
-	proof, whyNot := r.orphanProof2()
+	proof, whyNot := r.orphanProof2(vfC17Goroutines()) // candidate: one snapshot
+	if proof != "" {
+		// the verdict needs the stable confirmation (seconds; only paid when a violation is about to be reported)
+		var note string
+		proof, note = vfC17Stable(nil, func(gs []vfC17Gor) string { p, _ := r.orphanProof2(gs); return p })
+		if proof != "" {
+			proof += " [" + note + "]"
+		} else {
+			whyNot = "candidate not confirmed: " + note
+		}
+	}
 	if proof == "" {
 		r.mu.Lock()
 		r.logf("no proof of an orphaned registry entry: %s", whyNot)
@@ -498,18 +507,10 @@ func (r *vfC17MRig) orphanProof() string {
 	return proof
 }
 
-func (r *vfC17MRig) orphanProof2() (string, string) {
-	var buf []byte
-	for size := 1 << 20; ; size *= 8 {
-		buf = make([]byte, size)
-		if n := runtime.Stack(buf, true); n < size || size >= 1<<28 {
-			buf = buf[:n]
-			break
-		}
-	}
+func (r *vfC17MRig) orphanProof2(gs []vfC17Gor) (string, string) {
 	conns := 0
-	for _, g := range strings.Split(string(buf), "\n\n") {
-		lines := strings.Split(g, "\n")
+	for _, gor := range gs {
+		lines := strings.Split(gor.raw, "\n")
 		waiting := strings.Contains(lines[0], "[select") || strings.Contains(lines[0], "[chan receive") || strings.Contains(lines[0], "[IO wait") || strings.Contains(lines[0], "[sync.")
 		isConn := false
 		for _, l := range lines[1:] {
